@@ -4433,7 +4433,10 @@ impl Interpreter {
             return Err(JsError::type_error("Symbol.iterator must return an object"));
         };
 
-        // Iterate: call next() until done is true
+        // Iterate: call next() until done is true. The values collected so far are referenced
+        // only by this vector, and every next() may allocate (and collect): keep them rooted.
+        // (The caller must store the returned values before it allocates again.)
+        let values_guard = self.heap.create_guard();
         let mut values = Vec::new();
         let next_key = PropertyKey::String(self.intern("next"));
 
@@ -4485,6 +4488,9 @@ impl Interpreter {
                     .unwrap_or(JsValue::Undefined)
             };
 
+            if let JsValue::Object(obj) = &iter_value {
+                values_guard.guard(obj.cheap_clone());
+            }
             values.push(iter_value);
         }
 
